@@ -230,7 +230,10 @@ async def find_deployment_id(name: str, force_suffix: bool = False) -> str:
         deployment_id = "d-" + deployment_id
     deployment_id = deployment_id[:max_length].rstrip("-")
     base_deployment_id = deployment_id
-    if len(deployment_id) < 3 or force_suffix:
+    # Too little of the name survives to identify the deployment: fewer than three
+    # alphanumerics (the "d-" prefix and separating hyphens do not count).
+    alnum_count = len(re.sub(r"[^a-z0-9]", "", name.lower()))
+    if alnum_count < 3 or len(deployment_id) < 3 or force_suffix:
         deployment_id = _append_random_suffix(deployment_id, max_length)
 
     # Try to find a deployment id that is not in use
